@@ -7,6 +7,7 @@ from typing import TYPE_CHECKING, Any, Callable, Iterable
 from json import JSONEncoder, dumps
 
 from jmc.compile.utils import (
+    is_connected,
     clean_up_paren_token,
     convention_jmc_to_mc,
     substitute_params,
@@ -119,11 +120,18 @@ class PreFunction:
             params = (
                 "()" if token._embeded_data is None else token._embeded_data.string
             )
-            tokens = [
-                Token(token.token_type, token.line, token.col, params + "=>"),
-                *tokens,
-            ]
-        return self.tokenizer.merge_tokens(tokens, use_full_string=True).string
+            return (
+                params
+                + "=>"
+                + self.tokenizer.merge_tokens(tokens, use_full_string=True).string
+            )
+        # tokens that were apart in the source (`~ ~1 ~`) stay apart
+        text = ""
+        for index, token in enumerate(tokens):
+            if index and not is_connected(token, tokens[index - 1]):
+                text += " "
+            text += self.tokenizer.merge_tokens([token], use_full_string=True).string
+        return text
 
     def handle_lazy(
         self,
